@@ -27,6 +27,12 @@ PROPS = {
         "partial": "the refinement theorem is about the L2 model (logical segment files; sealing decided by byte sizes, which the proof does not depend on) and programs whose indexes stay below 2^64-1; rotation is performed before the next call (the harness inserts a barrier); model = code is sampled exhaustively over a reduced alphabet to a length bound and randomly beyond, on simfs and on the real filesystem + BoltDB",
         "assumptions": ["no segment file exceeds 4 GiB (uint32 offsets; documented limit)", "immutable.SortedMap as a sorted list with the Seek/Prev semantics read from its source"],
     },
+    "C07": {
+        "suites": ["fsdur"],
+        "leanchecker": True,
+        "partial": "what the kernel and the device do with fsync/rename is assumed (DESIGN §3.4); the theorems are about the OS-level durability model of Model/OsFs.lean, tied to the production fs/ and metadb/ packages by comparing strace'd system-call sequences per VFS call; the contract over whole workloads is evaluated by a monitor on the trace (exploration of generated workloads, not a proof over all code paths)",
+        "assumptions": ["fsync(fd) makes earlier writes to the file durable; fsync(dirfd) makes earlier create/unlink/rename durable", "ptrace is permitted in the sandbox (the check reports itself unable to run otherwise)"],
+    },
     "C08": {
         "suites": ["wal", "crash"],
         "partial": "the theorem covers every sequential interleaving of Set/Get/SetUint64/GetUint64 with log calls and clean reopens on the model; survival of acknowledged Sets across crashes is checked by the crash suite on simfs (where a Set is one atomic durable event — BoltDB's own crash atomicity is trusted, not modelled); concurrent Set/Get with log calls is exercised by the conc suite when present",
